@@ -13,6 +13,7 @@ Requests (whitespace separated words; rationals as `num/den`, non-finite cells a
   simlin <system> <data>                                      -> exact zero of the affine stacked system, `singular`, or `nan`
 
   iguess <first_order|data> <termspec as after `ford`> <baseFirst> <n> <data>   -> the main array after simulate_initial_guess
+  settings <nCalls> (none | <n> (key value)…)…                -> per call the settings handed to the solver `k=v,…` (dict order), joined by ` | `
   method <string>                                             -> METHOD_NAME of the simulator module the string selects, or `KeyError`
   pair   <N> <nModel> <nData>                                 -> `k:modelVariant:dataVariant …` (`-` = none) of the zip in Inlay.simulate
   hist   <nP> q… <nInit> (q v)… <nOps> (a obj q v | c obj | s obj)…   -> per op `-` or the parameter overwrites `q=v,…`, joined by ` | `
@@ -171,6 +172,15 @@ def stepP : P String := do
     let mode := if w = "first_order" then GuessMode.firstOrder else GuessMode.data
     if w ≠ "first_order" ∧ w ≠ "data" then failure
     pure (showData (initialGuess mode ts baseFirst n d))
+  | "settings" => do
+    let nCalls ← nat
+    let calls ← rep nCalls (do
+      let w ← word
+      if w = "none" then pure none else
+      match w.toNat? with
+      | some n => do let kv ← rep n (do let k ← word; let v ← word; pure (k, v)); pure (some kv)
+      | none => failure)
+    pure (" | ".intercalate ((settingsHistory calls).map (fun st => ",".intercalate (st.map (fun (k, v) => k ++ "=" ++ v)))))
   | "method" => do
     let w ← word
     pure (match resolveMethod w with | some m => m.name | none => "KeyError")
